@@ -148,3 +148,9 @@ func TestC09Special(t *testing.T) {
 func hasKey(m map[string]string, k string) bool { _, ok := m[k]; return ok }
 
 var _ = encrypt.RedactedData
+
+// FuzzC09 drives the no-leak property through Go's coverage-guided fuzzer (thorough tier only).
+func FuzzC09(f *testing.F) {
+	sec := stats.Sec("native_fuzz", rule)
+	f.Fuzz(rapid.MakeFuzz(func(t *rapid.T) { prop(t, sec, 4) }))
+}
